@@ -4,6 +4,9 @@ import json, os, subprocess, sys
 ROOT = os.path.dirname(os.path.dirname(os.path.abspath(__file__)))
 
 CLAIMED = {
+ "C17": ("exploration", "schedule exploration with a harness-owned serializing scheduler over library yield points (hook H3): exhaustive DFS over all interleavings for pairs of calls, property-based generated schedules for 2..4 threads, plus free-running parallel stress; oracle: per-thread results equal the sequential run, cache-prefix / monotonicity invariants at every scheduling point, no blocked run",
+         "Generated-schedule search: threads run decryptions (key powers 1..4), noise budgets, relinearization-key generation for 1..4 powers, Galois-key generation and Galois automorphisms on one shared Decryptor / KeyGenerator / Evaluator. The library yields to the harness scheduler at every lock-free point of the two key-power caches (before the read phase, between copy and compute, before the write phase, before the final read) and around the check-then-generate of the permutation tables, so a schedule is a choice sequence that is enumerated exhaustively (every pair of calls on the same cache, three decrypting threads in the thorough tier), generated and shrunk by proptest (2..4 threads, 1..2 calls each), and replayed exactly. Per-thread deterministic entropy makes even key generation byte-comparable with the same calls run alone on fresh objects. At every scheduling point both key-power caches must be a prefix s..s^k of the true powers with k non-decreasing and every filled permutation table complete; a run that blocks is a deadlock. A free-running sub-check executes the same workloads truly in parallel.",
+         "Trusted: yield points sit outside every lock scope; execution between yield points is serialized, so races inside a locked region are reachable only by the free-running sub-check (which cannot prove their absence).", "DESIGN.md §6 C17"),
  "C18": ("exploration", "model-based property testing (proptest) over protocol sessions with generated message-delivery schedules and withheld messages + exhaustive enumeration of all delivery orders for 2 and 3 parties; oracles: cross-party equality, key relations under the harness-summed secret key, ordinary decryptor",
          "Generated-history search: sessions of 1..4 protocol runs (collective public key, two-round relinearization keys with per-party interleaving of the rounds, secret-key reveal, collective decryption, key switch, public-key switch, cipher->shares, shares->cipher and their composition) among 2..6 parties sharing one tape, over BFV/BGV/CKKS contexts with 2..4 primes, inputs at every level and in either representation. The n(n-1) messages of every round are delivered in a generated order (all orders exhaustively for n=2,3), optionally with one message withheld. Every party's output must be identical; the collective keys must satisfy k0 + k1*s [- P*s^2] = bounded error for the secret-key sum the harness adds up itself, and must work with an ordinary encryptor / evaluator / decryptor; plaintexts must survive whenever the worst-case noise model says they must; shares must add up to the slots; exactly the party with an incomplete inbox must refuse.",
          "Trusted: noise model DESIGN.md §4 extended with secret norm n and multiparty key error 2nB(Nn+1); shares->cipher is observed at party 0 (the aggregating party of the documented usage).", "DESIGN.md §6 C18"),
